@@ -1,10 +1,10 @@
 SPECIFICATION Spec
 CONSTANTS
-  Cmds <- NumCmds
+  Cmds <- StringCmds
   SetupCmds <- StringSetup
-  Bound <- NumBound
+  Bound <- StringBound
   T0 = 1000
-  Quick = TRUE
+  Quick = FALSE
 VIEW View
 ACTION_CONSTRAINT Emit
 INVARIANT TypeOK
